@@ -80,4 +80,10 @@ package client
 //@ at call cache.(*TableCache).Populate requires wheld(db.cacheMutex) >= 1
 //@ at call cache.(*TableCache).Populate2 requires wheld(db.cacheMutex) >= 1
 //@ at call cache.(*TableCache).Purge requires wheld(db.cacheMutex) >= 1 && reconnecting
-//@ ensures_ok !db.deferUpdates && len(db.deferredUpdates) == 0
+//@ ensures_ok (cookie.DatabaseName in o.databases) ==> !o.databases[cookie.DatabaseName].deferUpdates
+//@ ensures_ok (cookie.DatabaseName in o.databases) ==> len(o.databases[cookie.DatabaseName].deferredUpdates) == 0
+
+//@ func newMonitorRequest
+//@ requires data != nil
+//@ modifies nothing
+//@ loop 1 invariant fresh(columns) || columns == nil
